@@ -61,6 +61,9 @@ def gen_invalid_write(rng, p):
 
 
 def run(ctx, model):
+    from props import kernels
+    kernels.run_plan(ctx, model, "C03")
+    kernels.run_multi(ctx, model, "C03")
     rng = ctx.rng
     n = ctx.budget(80, 900)
     for i in range(n):
